@@ -295,4 +295,20 @@ PROPS = {
              "env_quick": {"VERIF_ENUM_STRIDE": "9"}, "env_thorough": {"VERIF_ENUM_STRIDE": "1"}},
         ],
     },
+    "C16": {
+        "manifest": {
+            "text": "primary histories with compaction, snapshots and immediate level-0 retention run in slices; a follower child process (Restore with Follow) is started, stopped with SIGTERM or killed by the ptrace supervisor before a chosen mutating system call, and restarted; the sidecar TXID must always parse and never decrease; after convergence (bounded by poll count) the follower file equals Restore(TXID=sidecar) except for the header bytes follow mode rewrites",
+            "note": "kill points are sampled (estimated call count), not enumerated per session; the primary runs in the harness process between follower sessions and optionally while the follower is live",
+            "technique": "property-based testing (rapid) of (primary history, follower stop/kill schedule) with syscall-level kill injection and a byte-equality oracle against ordinary restore",
+        },
+        "binary": "props",
+        "level": "fault_enumeration",
+        "rule": ("2-4 rounds; each round = a primary slice of 3-10 ops run while the follower is down (creates level-0 gaps to bridge), optionally a second slice run while the follower is live, "
+                 "then a follower session that is killed before mutating call k (k sampled) and restarted, or stopped cleanly. Non-trivial = a resume had to bridge a missing level-0 TXID "
+                 "from a higher level, or a kill landed inside applyLTXFile (before a pwrite/fsync/ftruncate on the follower database); distinct = hash of the case."),
+        "assumptions": ["x86_64 Linux ptrace", "file replica client", "convergence wait bounded by 4000 polls of 2 ms with a static replica"],
+        "runs": [
+            {"name": "schedules", "test": "TestProp_C16", "kind": "rapid", "checks_quick": 64, "checks_thorough": 2000, "shards": 8},
+        ],
+    },
 }
